@@ -366,6 +366,10 @@ def step (st : Store) (line : String) : Store × String :=
     match st.pjs[src]? with
     | none => (st, "bad-ref")
     | some pj => ({ st with pjs := st.pjs.insert dst pj }, "ok")
+  | ["clone", dst, src, _] =>     -- the destination object offered to Clone does not matter
+    match st.pjs[src]? with
+    | none => (st, "bad-ref")
+    | some pj => ({ st with pjs := st.pjs.insert dst pj }, "ok")
   | ["scribble", pn] =>
     match st.pjs[pn]? with
     | none => (st, "bad-ref")
